@@ -17,6 +17,9 @@ type Txn struct {
 	Keys   []string `json:"keys"`   // distinct keys it latches
 	Start  uint64   `json:"start"`  // start timestamp (distinct from every other timestamp of the scenario)
 	Commit uint64   `json:"commit"` // commit timestamp it sets before unlocking when its lock was not stale (> Start)
+	// Fails: its commit fails although its lock was not stale: it unlocks WITHOUT having set a commit timestamp
+	// (what KVTxn.Commit does on an error)
+	Fails bool `json:"fails,omitempty"`
 	// sched mode only
 	Delay   int `json:"delay,omitempty"`    // own yields before calling Lock
 	Work    int `json:"work,omitempty"`     // own yields between the return of Lock and UnLock
@@ -180,7 +183,8 @@ func enumFor(poolN, maxTxns, maxKeys int) *enumSpace {
 	}
 	for _, sh := range e.shapes {
 		e.cum = append(e.cum, e.total)
-		e.total += len(e.orders[len(sh.sets)])
+		// every timestamp order x (no commit fails | the commit of transaction f fails)
+		e.total += len(e.orders[len(sh.sets)]) * (len(sh.sets) + 1)
 	}
 	enumCache[name] = e
 	return e
@@ -192,7 +196,10 @@ func (e *enumSpace) scenario(idx int) (*Scenario, bool) {
 	}
 	si := sort.Search(len(e.cum), func(i int) bool { return e.cum[i] > idx }) - 1
 	sh := e.shapes[si]
-	order := e.orders[len(sh.sets)][idx-e.cum[si]]
+	local := idx - e.cum[si]
+	nf := len(sh.sets) + 1
+	order := e.orders[len(sh.sets)][local/nf]
+	failing := local%nf - 1 // -1: nobody
 	sc := &Scenario{Kind: "direct", Gran: sh.gran, Slots: sh.slots, Exhaustive: true, Budget: 200000}
 	for i, s := range sh.sets {
 		keys := append([]string(nil), e.subs[s]...)
@@ -204,6 +211,9 @@ func (e *enumSpace) scenario(idx int) (*Scenario, bool) {
 		sc.Txns = append(sc.Txns, Txn{ID: i, Keys: keys})
 	}
 	applyOrder(sc.Txns, order, 10)
+	if failing >= 0 {
+		sc.Txns[failing].Fails = true
+	}
 	return sc, true
 }
 
@@ -268,6 +278,9 @@ func genRandom(cfg simkit.RunConfig, kind string) *Scenario {
 		sc.Txns = append(sc.Txns, Txn{ID: i, Keys: keys})
 	}
 	applyOrder(sc.Txns, randOrder(r, n), 10)
+	for i := range sc.Txns {
+		sc.Txns[i].Fails = r.Intn(5) == 0
+	}
 	if kind == "direct" {
 		sc.Gran = []string{"method", "slot", "slot"}[r.Intn(3)]
 		sc.Budget = 3000
@@ -296,5 +309,8 @@ func genWide(cfg simkit.RunConfig) *Scenario {
 	minutes := uint64(1 + r.Intn(3))
 	unit := oracle.ComposeTS(int64(minutes)*60_000, 0)
 	applyOrder(sc.Txns, randOrder(r, 4), unit)
+	for i := range sc.Txns {
+		sc.Txns[i].Fails = r.Intn(6) == 0
+	}
 	return sc
 }
